@@ -141,7 +141,7 @@ def run(ctx):
         "heap bound checked: library peak <= %d*(input + expanded character data and attributes)+%d" % (HEAP_LIN, HEAP_C0),
     ]
     bad = common.forbidden_scan()
-    cres = common.coq_property(PID)
+    cres = common.coq_properties([PID, "C02_front"])
     common.proof_coverage(ctx, cres)
     proof_broken = (not cres["ok"]) or bool(bad)
     tables = gen.tables_json()
@@ -205,8 +205,23 @@ def run(ctx):
                 clauses.append("stack use %d exceeds %d" % (d["stack"], STACK_MAX))
         if clauses:
             viol.append({"input": line, "kind": kind, "clauses": clauses, "answer": a})
+    # ---- tie of the XML front-end model (Model/XmlFront.v: Expat events -> tree) to wbxml_tree_from_xml
+    front = None
+    try:
+        from vlib import xmlfront
+        front = xmlfront.correspond(ctx.seed, quick=quick)
+    except common.BuildError:
+        raise
+    except ImportError:
+        pass
+    if front is not None:
+        ctx.coverage["front_end_model_tie"] = {k: front[k] for k in ("evaluations", "soft_error_code_differences", "distribution") if k in front}
+        ctx.coverage["front_end_model_tie"]["disagreements"] = len(front.get("disagreements", []))
+        for dgr in front.get("disagreements", [])[:3]:
+            if str(dgr.get("kind", "")).startswith("crash"):
+                viol.append({"input": "xmlfront --hex " + str(dgr.get("doc_hex"))[:4000], "kind": "front-end-crash", "clauses": ["crash / sanitizer report in wbxml_tree_from_xml"], "answer": str(dgr)[:1500]})
     ctx.coverage.update({
-        "evaluations": len(cases), "distinct_nontrivial": len(nontrivial),
+        "evaluations": len(cases) + (front["evaluations"] if front else 0), "distinct_nontrivial": len(nontrivial),
         "rule": "documents = project XML corpus + text-level mutations (truncate, flip, repeat/drop/insert elements, CDATA, PIs, entities, "
                 "attribute bloat, unknown names, DOCTYPE removed/replaced, UTF-16/Latin-1 transcoding, deeper wrapping) + prefixes + random + "
                 "nesting around the limit and far beyond + width + internal-entity expansion + embedded DevInf, under random option tuples "
@@ -218,7 +233,11 @@ def run(ctx):
     })
     for v in viol[:6]:
         ctx.violation("c-" + v["clauses"][0][:40], {"sanitizer": (lcr + hcr)[:2], **v})
+    if not viol and front is not None and front.get("disagreements"):
+        ctx.violation("front-end-correspondence-broken", {"broken": "Model/XmlFront.v and wbxml_tree_from_xml disagree on tree-or-error; no input violating the property's own oracle was found",
+                                                           "first_cases": [{k: str(v)[:1500] for k, v in d.items()} for d in front["disagreements"][:3]],
+                                                           "replay_cmd": "python3 -m vlib.xmlfront --hex <doc_hex>"}, found_input=False)
     if not viol and proof_broken:
-        ctx.violation("proof-broken", {"broken": "Properties_C02.v no longer checks", "failed_theorems": cres["failed"],
+        ctx.violation("proof-broken", {"broken": "Properties_C02.v / Properties_C02_front.v no longer check", "failed_theorems": cres["failed"],
                                        "broken_at": cres.get("broken_at"), "forbidden": bad, "log_tail": cres["log"][-3000:],
                                        "search": "sanitizer-backed exploration of %d cases found no failing input" % len(cases)}, found_input=False)
